@@ -47,6 +47,7 @@ class Job:
     object_bits: int = None
     expect_fail: list = field(default_factory=list)  # known-finding obligations (regex)
     min_post: int = 1           # minimal number of contract obligations (vacuity guard)
+    weave_functions: list = field(default_factory=list)  # further functions whose loops get their clauses
 
 
 def _limits():
@@ -118,10 +119,13 @@ def build_job(job, wd, log):
         from . import weave
         wdir = os.path.join(wd, "woven")
         os.makedirs(wdir, exist_ok=True)
+        woven_lines = set()
         for repo_file, loops_file in job.weave:
-            weave.weave_file(os.path.join(SRC, repo_file),
-                             os.path.join(VERIF, "contracts", loops_file),
-                             os.path.join(wdir, repo_file))
+            for fn_, ln_ in weave.weave_file(os.path.join(SRC, repo_file),
+                                             os.path.join(VERIF, "contracts", loops_file),
+                                             os.path.join(wdir, repo_file),
+                                             only=set([job.enforce] + list(job.weave_functions)) if job.enforce else None):
+                woven_lines.add((fn_, ln_))
         incs.append("-I" + wdir)
     incs.append("-I" + SRC)
     defs = ["-DVARINT_VERIF_CBMC=1"] + ["-D" + d for d in job.defines]
@@ -165,8 +169,19 @@ def build_job(job, wd, log):
             for g in job.replace:
                 args += ["--replace-call-with-contract", g]
             gi(args)
-        if job.pre_unwindset:
-            gi(["--unwindset", ",".join(job.pre_unwindset), "--unwinding-assertions"])
+        # loops of the woven functions that carry no clauses are the do { } while (0) of
+        # statement macros: unwound once, with an unwinding assertion (a real loop would fail it)
+        pre = list(job.pre_unwindset)
+        explicit = {x.split(":")[0] for x in pre}
+        rc_, txt_, _ = run(["goto-instrument", "--show-loops", cur], 300, wd)
+        fns = {f for f, _l in woven_lines} | ({job.enforce} if job.enforce else set())
+        for m in re.finditer(r"Loop ([\w$.]+):\s*\n\s*file (\S+) line (\d+) function (\w+)", txt_):
+            lname, _f, line, fn_ = m.group(1), m.group(2), int(m.group(3)), m.group(4)
+            if fn_ in fns and fn_ not in job.replace and (fn_, line) not in woven_lines and lname not in explicit:
+                pre.append(lname + ":1")
+        log.write("pre-unwind: " + ",".join(pre) + "\n")
+        if pre:
+            gi(["--unwindset", ",".join(pre), "--unwinding-assertions"])
         gi(["--apply-loop-contracts"])
         if job.enforce:
             gi(["--enforce-contract", job.enforce])
@@ -177,6 +192,14 @@ def build_job(job, wd, log):
                 args += ["--replace-call-with-contract", g]
             gi(args)
         if job.enforce:
+            # the non-DFCC contract instrumentation wants loop-free code: unwind first
+            u = []
+            if job.unwind is not None:
+                u += ["--unwind", str(job.unwind)]
+            if job.unwindset:
+                u += ["--unwindset", ",".join(job.unwindset)]
+            if u:
+                gi(u + ["--unwinding-assertions"])
             gi(["--enforce-contract", job.enforce])
     else:
         raise Undecided("unknown mode " + job.mode)
@@ -184,7 +207,7 @@ def build_job(job, wd, log):
 
 
 def cbmc_cmd(job, gb, solver):
-    cmd = ["cbmc", gb, "--json-ui", "--trace"]
+    cmd = ["cbmc", gb, "--json-ui"]
     if job.mode != "M1":
         cmd += ["--function", job.entry]
     if job.unwind is not None:
@@ -222,7 +245,10 @@ def parse_cbmc(path):
     return results, msgs, status
 
 
-BAD_LOG = [r"ignoring forall", r"ignoring exists", r"Parse Error", r"ignoring infinity"]
+# "ignoring infinity" (infinite-size is_fresh bookkeeping array of the non-DFCC contract
+# instrumentation) replaces an expression by an unconstrained value: an over-approximation,
+# so a PROVED verdict stays sound; it is recorded in the job result, not treated as an error.
+BAD_LOG = [r"ignoring forall", r"ignoring exists", r"Parse Error"]
 
 
 def trace_inputs(trace, entry):
@@ -286,15 +312,35 @@ def run_job(job, tmp_root):
                 continue
             results, msgs, status = parse_cbmc(outp)
             alltxt = "\n".join(msgs) + buildlog
+            if any("Out of memory" in m or "out of memory" in m for m in msgs):
+                last = "cbmc ran out of memory on %s" % solver
+                continue
             if results is None:
                 last = "no result from cbmc on %s (rc=%s): %s" % (solver, rc, "\n".join(msgs[-5:])[-800:])
                 continue
             for pat in BAD_LOG:
                 if re.search(pat, "\n".join(msgs)):
                     raise Undecided("log contains '%s'" % pat)
+            if re.search(r"ignoring infinity", "\n".join(msgs)):
+                res["warnings"] = ["cbmc: ignoring infinity (over-approximation of the is_fresh map)"]
             res["solver"] = solver
             res["solver_s"] = round(secs, 2)
-            return _judge(job, res, results, alltxt, t0)
+            out = _judge(job, res, results, alltxt, t0)
+            if out["outcome"] == "FAILED":
+                # second pass: counterexample trace for the first failed obligations only
+                # (a full --trace run formats whole symbolic-size arrays and can exhaust memory)
+                for f in out["failed"][:2]:
+                    tp = os.path.join(wd, "trace.json")
+                    tcmd = cmd + ["--trace", "--property", f["obligation"]]
+                    rc2, _t, _s = run(tcmd, min(job.timeout, 900), wd, env=env, stdout_path=tp)
+                    try:
+                        r2, _m, _st = parse_cbmc(tp)
+                        for r in r2 or []:
+                            if r["property"] == f["obligation"] and r.get("trace"):
+                                f["inputs"] = trace_inputs(r["trace"], job.entry)
+                    except Undecided:
+                        pass
+            return out
         raise Undecided(last or "no solver configured")
     except Undecided as u:
         res["outcome"] = "UNDECIDED"
@@ -304,6 +350,18 @@ def run_job(job, tmp_root):
     finally:
         if not os.environ.get("VERIF_KEEP"):
             shutil.rmtree(wd, ignore_errors=True)
+
+
+_ledger = None
+
+
+def ledger():
+    """obligation counts per job recorded on the pinned tree (baseline/ledger.json)"""
+    global _ledger
+    if _ledger is None:
+        p = os.path.join(VERIF, "baseline", "ledger.json")
+        _ledger = json.load(open(p)) if os.path.exists(p) else {}
+    return _ledger
 
 
 def _judge(job, res, results, alltxt, t0):
@@ -345,6 +403,26 @@ def _judge(job, res, results, alltxt, t0):
     if not canary_ok:
         res["outcome"] = "UNDECIDED"
         res["reason"] = "canary unreachable: contradictory preconditions (vacuous proof)"
+        return res
+    led = ledger().get(job.name)
+    if led:
+        for c in ("postcondition", "loop_invariant", "loop_decreases", "precondition"):
+            if classes.get(c, 0) < led.get(c, 0):
+                res["outcome"] = "UNDECIDED"
+                res["reason"] = "obligations vanished: %d '%s' obligations generated, ledger of the pinned tree has %d" % (
+                    classes.get(c, 0), c, led.get(c, 0))
+                return res
+        if n * 2 < led.get("_total", 0):
+            res["outcome"] = "UNDECIDED"
+            res["reason"] = "only %d obligations generated, ledger has %d" % (n, led.get("_total", 0))
+            return res
+    if job.mode == "M2" and classes.get("loop_invariant", 0) < 2:
+        res["outcome"] = "UNDECIDED"
+        res["reason"] = "loop contract was not applied (no loop-invariant obligations)"
+        return res
+    if job.enforce and classes.get("postcondition", 0) < 1:
+        res["outcome"] = "UNDECIDED"
+        res["reason"] = "contract of %s was not enforced (no postcondition obligation)" % job.enforce
         return res
     contractual = sum(classes.get(c, 0) for c in ("postcondition", "assertion", "assigns", "loop_invariant"))
     if contractual < job.min_post:
